@@ -147,6 +147,18 @@ def _reaching(fn, v):
     return ins, outs, preds, reach
 
 
+def _reach_from(fn, starts):
+    seen = set()
+    work = [x for x in starts if x is not None]
+    while work:
+        x = work.pop()
+        if x in seen or not (0 <= x < len(fn["blocks"])):
+            continue
+        seen.add(x)
+        work.extend(_succs(fn["blocks"][x]["term"]))
+    return seen
+
+
 def _mentions(b, vs):
     ops = []
     _operands(b["stmts"], ops)
@@ -211,8 +223,22 @@ def _fold_block(fn, i, vs, ins_by_v, single):
                 _operands(r, ops)
                 pls = []
                 _places(r, pls)
-                safe = all(o.get("k") == "const" or (o["pl"]["l"] in single and not any(isinstance(e, dict) and "ix" in e and e["ix"] not in single for e in o["pl"]["p"]))
-                           for o in ops) and all(p["l"] in single or p["l"] <= fn.get("argc", 0) for p in pls) and r.get("r") in ("use", "agg", "cast", "bin", "un")
+                # the assigned value may be repeated at the read only if it means the same there: operands are constants or whole
+                # single-assignment temporaries (no memory is read), and none of those temporaries can be computed again between the
+                # assignment and the read (a loop iteration in between would give it another value)
+                safe = all(o.get("k") == "const" or (o["pl"]["l"] in single and not o["pl"]["p"]) for o in ops) \
+                    and all(p["l"] in single and not p["p"] for p in pls) and r.get("r") in ("use", "agg", "cast", "bin", "un")
+                if safe and not (d[0] == i and d[1] < j):
+                    tdefs = set()
+                    for o in ops:
+                        if o.get("k") != "const":
+                            for bi2, b2 in enumerate(fn["blocks"]):
+                                if _defs_in(b2, o["pl"]["l"]) or (b2["term"]["t"] == "call" and b2["term"]["dest"]["l"] == o["pl"]["l"]):
+                                    tdefs.add(bi2)
+                    after = _reach_from(fn, _succs(fn["blocks"][d[0]]["term"]))
+                    for bt in tdefs:
+                        if bt in after and (bt == i or i in _reach_from(fn, _succs(fn["blocks"][bt]["term"]))):
+                            safe = False
                 if safe and not (r.get("r") == "use" and r["a"].get("k") in ("copy", "move") and r["a"]["pl"]["l"] in vs):
                     s["rv"] = copy.deepcopy(r)
                     changed = True
